@@ -87,7 +87,8 @@ namespace glm
 		detail::float_t<float> const a(x);
 		detail::float_t<float> const b(y);
 
-		return abs(a.i - b.i);
+		// Sign-magnitude bit patterns are not ordered across zero: measure on the monotonic line
+		return static_cast<int>(abs(a.ordered() - b.ordered()));
 	}
 
 	GLM_FUNC_QUALIFIER int64 float_distance(double x, double y)
@@ -95,7 +96,8 @@ namespace glm
 		detail::float_t<double> const a(x);
 		detail::float_t<double> const b(y);
 
-		return abs(a.i - b.i);
+		// Sign-magnitude bit patterns are not ordered across zero: measure on the monotonic line
+		return abs(a.ordered() - b.ordered());
 	}
 
 	template<length_t L, typename T, qualifier Q>
